@@ -183,6 +183,13 @@ fn mixtures(m: &mut Monitor, cfg: &Config) {
                             }
                             Err(_) => m.skip("flash", "guided call failed (allowed)"),
                         }
+                        // guided by an equilibrium of another temperature (continuation along an isobar)
+                        let t_other = Temperature::from_reduced(t * rng.range(0.95, 1.05));
+                        if let Ok(bo) = PhaseEquilibrium::bubble_point(&pr.eos, t_other, &x, None, None, Default::default()) {
+                            if let Ok(f2) = PhaseEquilibrium::tp_flash(&pr.eos, temp, p, &feed, Some(&bo), SolverOptions::default(), None) {
+                                m.check("flash:guided from another temperature equals unguided", "pcsaft-hc|flash guided other T", case + 3, pe_dev(&f2, &f0), 1e-6, || json!({"info": info, "T of the initial equilibrium": t_other.to_reduced(), "guided": pe_json(&f2), "unguided": pe_json(&f0)}));
+                            }
+                        }
                     }
                 }
             }
